@@ -80,8 +80,7 @@ def handle : List String → String
           parseInt prev, parseInt sigbw, parseIntList offs, parseNatList orc with
     | some st, some en, some c, some lm, some total, some trim, some inten, some dual, some prev, some sigbw, some offs, some orc =>
       if side ≠ "enc" ∧ side ≠ "dec" then "bad-op" else
-      let p : Opus.CeltAlloc.Inp := { start := st, end_ := en, offsets := offs, cap := Opus.CeltAlloc.initCaps lm c, trim := trim,
-        intensity := inten, dualStereo := dual, total := total, C := c, LM := lm, prev := prev, signalBandwidth := sigbw }
+      let p : Opus.CeltAlloc.Inp := Opus.CeltAlloc.Inp.mk st en offs (Opus.CeltAlloc.initCaps lm c) trim inten dual total c lm prev sigbw
       let opStr : Opus.CeltAlloc.Op → String
         | .bit v => s!"b{v}"
         | .uint v ft => s!"u{v}/{ft}"
